@@ -164,6 +164,8 @@ def to_obj(v):
     if k == 'list':
         f = z3.Function('list_of_len', z3.IntSort(), Obj)
         return f(v.a['length'])
+    if k == 'dict':
+        return z3.Const('dict:' + v.a['key'], Obj)
     if k == 'set':
         raise Unsupported('set as call argument')
     raise Unsupported('to_obj ' + k)
@@ -417,7 +419,8 @@ def signature(module, qual):
 class Engine:
     def __init__(self, module, qual, contract):
         self.module, self.qual, self.c = module, qual, contract
-        self.fn, self.src = find_def(module, qual)
+        loc = getattr(contract, 'locate', None)
+        self.fn, self.src = loc() if loc else find_def(module, qual)
         self.consts, self.imports = consts_of(module)
         self.obls = []           # (name, St, claim, lineno)
         self.paths = []          # terminal (St, Outcome)
@@ -1147,6 +1150,11 @@ class Engine:
                                 out.append((s2, oc2))
                     cur = nxt
                 return out + cur
+            elif seqv.kind == 'opt' and seqv.a['inner'].kind == 'list':
+                self.oblige(f'{tag}.iterable_is_not_None', st, z3.Not(seqv.a['isnone']), s)
+                inner = seqv.a['inner']
+                el = inner.a.get('elem') or (lambda k, nm=fresh('elem'): ObjV(z3.Function(nm, z3.IntSort(), Obj)(k)))
+                it = AbstractIter(inner.a['length'], el)
             elif seqv.kind == 'obj':
                 ln = U('len', seqv, ret='int')
                 st.pc.append(ln.t >= 0)
